@@ -29,7 +29,7 @@ LDFLAGS_fuzz        := -fsanitize=address,undefined,fuzzer
 LDFLAGS_tsan        := -fsanitize=thread
 LDFLAGS_plain-O0    :=
 LDFLAGS_plain-O2    :=
-LDFLAGS := $(LDFLAGS_$(SAN)) -lpthread
+LDFLAGS := $(LDFLAGS_$(SAN)) -lpthread -ldl
 
 LIB := $(LIBDIR)/src/libcbor.a
 
